@@ -480,14 +480,16 @@ func (e *vAofEnv) aofReadHistory(r *rand.Rand, h *vAofHistory, secondEvery int) 
 					}
 					if !ok2 {
 						cls := "aligned"
+						// root cause first: a value file that does not pair with the complete records explains the failure whether or
+						// not the record file is torn as well
 						if c.rc < 12 {
 							cls = "header"
-						} else if res != 0 {
-							cls = "torn-record"
 						} else if dpos != c.dc {
 							cls = "torn-value"
 						} else if valueMissing {
 							cls = "missing-value"
+						} else if res != 0 {
+							cls = "torn-record"
 						}
 						replay2 := map[string]interface{}{"first": op, "append": apOp, "second": op2, "delivered": vAofRecsString(got2), "status": status2}
 						e.monitor("C08:second-restart:"+cls, "records persisted after a restart over a cut log are not recovered (or recovered wrongly) by the following restart", replay2)
